@@ -25,7 +25,7 @@ import collections
 import functools
 import types
 
-from sigtools import _signatures, _util
+from sigtools import _signatures, _util, _verif
 from sigtools._specifiers import forged_signature
 
 try:
@@ -473,16 +473,26 @@ class cleanup_functools_wrapper(object):
         else:
             raise NotImplementedError('This context manager is not reentrant')
         self.saved_attrs = {}
+        if _verif.enabled:
+            _verif.emit('WindowEnter', obj=id(self.func))
         for attr in self.attrs:
             try:
                 self.saved_attrs[attr] = getattr(self.func, attr)
+                if _verif.enabled:
+                    _verif.emit('Save', obj=id(self.func), attr=attr)
                 delattr(self.func, attr)
+                if _verif.enabled:
+                    _verif.emit('Del', obj=id(self.func), attr=attr)
             except AttributeError:
                 pass
 
     def __exit__(self, *exc):
         for attr, val in self.saved_attrs.items():
             setattr(self.func, attr, val)
+            if _verif.enabled:
+                _verif.emit('Restore', obj=id(self.func), attr=attr)
+        if _verif.enabled:
+            _verif.emit('WindowExit', obj=id(self.func))
 
 
 def autoforwards_function(func, args, kwargs):
